@@ -71,7 +71,8 @@ def extract(flavour="debug", repo=REPO, verbose=True):
     """Returns (facts_dir, tree_hash, info). Raises BuildError when /repo does not type-check."""
     os.makedirs(CACHE, exist_ok=True)
     th = tree_hash(repo)
-    tag = th if flavour == "debug" else th + "-" + flavour
+    drv = hashlib.sha256(open(os.path.join(VERIF, "engine", "mirfacts", "src", "main.rs"), "rb").read()).hexdigest()[:8]
+    tag = "%s-%s" % (th, drv) if flavour == "debug" else "%s-%s-%s" % (th, drv, flavour)
     out = os.path.join(CACHE, "facts", tag)
     with open(os.path.join(CACHE, "lock"), "w") as lock:
         fcntl.flock(lock, fcntl.LOCK_EX)
